@@ -160,9 +160,11 @@ CHECKS["C08"] = {
     "technique": "property-based testing (rapid) of FindProvidersAsync over simulated responders with assigned provider records; soundness/bound/stop oracle over the channel and the simulation log",
     "level_text": "Generated distributions of provider records over responders and local storage, counts, arrival orders and cancellation instants are run against the real FindProvidersAsync; the oracle checks "
                   "soundness, the count bound, the repeat rule, completeness for count 0 and that no request starts after the count was reached. Exploration: scenarios are sampled.",
-    "level_note": "Standard client here; the dual and accelerated clients' merge rules are checked in their own parts (C15, C16).",
+    "level_note": "Three parts: the standard client, the accelerated client (FullRT over a fake crawl) and the dual client's merge of the WAN and LAN searches.",
     "parts": [
         {"part": "find-providers", "pkg": ROOT, "test": "TestVerif_C08_FindProviders", "quick": 2500, "thorough": 40000},
+        {"part": "fullrt", "pkg": "./fullrt/", "test": "TestVerif_C08_FullRT", "quick": 1200, "thorough": 20000},
+        {"part": "dual-merge", "pkg": "./dual/", "test": "TestVerif_C08_DualMerge", "quick": 400, "thorough": 8000},
     ],
 }
 
